@@ -35,7 +35,7 @@ ASSUMPTIONS = [
     "len(chunk) <= chunksize and complete consecutive coverage of the yielded chunks are checked",
     "Parquet: the row-group cache size is not observed, only that each group is read once per pass in order",
 ]
-PROBES = ["two_passes", "tail_chunk_shorter", "exact_multiple", "single_chunk", "parquet_group_straddles_chunk", "parallel_mode"]
+PROBES = ["parquet_groups_aligned_with_chunks", "two_passes", "tail_chunk_shorter", "exact_multiple", "single_chunk", "parquet_group_straddles_chunk", "parallel_mode"]
 REAL_VS_STUB = dict(
     real="yaw readers, DataChunk, h5py, pyarrow, astropy.io.fits, pandas",
     stub="multiprocessing (sim.fakemp); trace taps: TracedFrame, h5py.Dataset.__getitem__, ParquetFile.read_row_group, DataChunkReader.__next__ wrappers",
@@ -55,7 +55,11 @@ def gen_case(prng: Prng, tier: str) -> dict:
     k = prng.randint(1, 5)
     if mode == "create":
         n = max(n, 10 * k + 5)
+    extra = {}
+    if source == "parquet" and chunksize is not None and prng.chance(1, 2):
+        extra["pq_rowgroup"] = prng.choice([chunksize, max(1, chunksize // 2), 2 * chunksize, 3 * chunksize])
     return dict(
+        **extra,
         prop=PROP,
         data=dict(data_seed=prng.below(1 << 30), n=n, region=prng.choice(["box", "wide"]),
                   has_w=prng.chance(1, 2), has_z=prng.chance(1, 2)),
@@ -248,7 +252,9 @@ def check_trace(case: dict, trace: list) -> tuple[dict | None, str | None, dict]
                     return _sig(case, "trace_violation", what="coverage"), f"{col} pass {p} stops at {pos} < {n}", probes
     elif src == "parquet":
         groups = [e[2] for e in trace if e[1] == "pq:group"]
-        rg = 1 + (int(case["data"]["data_seed"]) % max(1, min(n, 97)))
+        rg = wl.parquet_row_group_size(n, case["data"]["data_seed"], case.get("pq_rowgroup"))
+        if case.get("pq_rowgroup"):
+            probes["parquet_groups_aligned_with_chunks"] = 1
         ngroups = -(-n // rg)
         if rg % cs and cs % rg:
             probes["parquet_group_straddles_chunk"] = 1
